@@ -22,6 +22,8 @@ from typing import Dict, List, Optional, Tuple
 from engine.src import FunctionInfo, own_nodes, own_nodes_incl_lambda, src_of, AnalysisError
 from engine.affine import lin, Lin, LinErr
 from engine.util import is_self_attr, const_value, kwarg
+from .common import resolve_call
+from .sem import expander, ctext, bind, calls, paths, RAISE, defs_texts
 
 RULES = {
     "C11.a": "multiply(XP[:, s0:s1], X[:, i:i+1], XP[:, d0:d1]): d1 - d0 == s1 - s0 and the factor is a single column (affine proof)",
@@ -32,190 +34,530 @@ POLY = "mlinsights.mlmodel._extended_features_polynomial"
 EXT = "mlinsights.mlmodel.extended_features"
 
 
-def _inner_loop(fn: ast.AST) -> Tuple[ast.For, ast.For, ast.If]:
-    """(degree loop, feature loop, the `if d == 0` statement)"""
-    outer = [l for l in ast.walk(fn) if isinstance(l, ast.For) and isinstance(l.target, ast.Name) and l.target.id == "d"]
-    if len(outer) != 1:
-        raise AnalysisError("degree loop `for d in range(0, degree)` not found")
-    o = outer[0]
-    iff = [s for s in o.body if isinstance(s, ast.If) and src_of(s.test) == "d == 0"]
-    if len(iff) != 1:
-        raise AnalysisError("`if d == 0` block not found")
-    inner = [l for l in ast.walk(ast.Module(body=iff[0].orelse, type_ignores=[])) if isinstance(l, ast.For) and isinstance(l.target, ast.Name) and l.target.id == "i"]
-    if len(inner) != 1:
-        raise AnalysisError("feature loop `for i in range(0, n)` not found")
-    return o, inner[0], iff[0]
-
-
-def _env_of(stmts: List[ast.stmt], upto: Optional[ast.AST] = None, base: Optional[Dict[str, Lin]] = None) -> Dict[str, Lin]:
-    env: Dict[str, Lin] = dict(base or {})
-    for s in stmts:
-        if upto is not None and s is upto:
-            break
-        if isinstance(s, ast.Assign) and len(s.targets) == 1 and isinstance(s.targets[0], ast.Name):
-            try:
-                env[s.targets[0].id] = lin(s.value, env)
-            except LinErr:
-                env.pop(s.targets[0].id, None)
-    return env
+# ---------------------------------------------------------------------------
+# One symbolic round of a block recurrence.
+#
+# Both value recurrences and the names recurrence have the shape
+#     [bias]  for d in range(degree):  if d == 0: FIRST   else: for i in range(n): STEP ; CLOSE
+# They are compared through what ONE round does to the write position, written
+# as linear forms over symbols:  P (write position at the start of the round),
+# n, and I_i, I_i1, I_last (entries i, i+1 and -1 of the previous round's block
+# boundaries).  Local names, temporaries, equivalent arithmetic, helper
+# extraction of the first round and the way a block is appended (extend of a
+# comprehension / loop of appends) do not matter.
 
 
 def _slice(sub: ast.AST) -> Optional[ast.Slice]:
     """the column slice of XP[:, a:b]"""
-    if isinstance(sub, ast.Subscript) and isinstance(sub.slice, ast.Tuple) and len(sub.slice.elts) == 2 and isinstance(sub.slice.elts[1], ast.Slice):
+    if isinstance(sub, ast.Subscript) and isinstance(sub.slice, ast.Tuple) and len(sub.slice.elts) == 2 and isinstance(sub.slice.elts[1], ast.Slice) and sub.slice.elts[1].lower is not None and sub.slice.elts[1].upper is not None:
         return sub.slice.elts[1]
     return None
+
+
+class Seq:
+    """list of consecutive integers first, first+1, ... (count of them)"""
+
+    def __init__(self, first: Lin, count: Lin):
+        self.first, self.count = first, count
+
+    def __repr__(self):
+        return f"Seq({self.first!r}; {self.count!r})"
+
+
+class Acc:
+    def __init__(self):
+        self.items: List[Lin] = []
+
+
+class PrevIndex:
+    """the block boundaries produced by the previous round (symbolic)"""
+
+
+class Unsupported(Exception):
+    pass
+
+
+class Round:
+    def __init__(self, repo, fi: FunctionInfo, mode: str, flags: Dict[str, bool]):
+        self.repo, self.fi, self.mode, self.flags = repo, fi, mode, flags
+        self.env: Dict[str, object] = {}
+        self.pos_name: Optional[str] = None  # values: the write position variable
+        self.L: Optional[Lin] = None  # names: current len(names)
+        self.names_var: Optional[str] = None
+        self.events: List[tuple] = []
+        self.iv: Optional[str] = None
+        self.guards: List[Lin] = []
+        self.broke_before_record = False
+
+    # ---- expressions
+    def _rewrite(self, e: ast.AST) -> ast.AST:
+        iv, env = self.iv, self.env
+
+        class R(ast.NodeTransformer):
+            def visit_Subscript(s_, n):
+                if isinstance(n.value, ast.Name) and isinstance(env.get(n.value.id), PrevIndex):
+                    t = src_of(n.slice).replace(" ", "")
+                    if iv is not None and t == iv:
+                        return ast.Name(id="I_i", ctx=ast.Load())
+                    if iv is not None and t in (f"{iv}+1", f"1+{iv}"):
+                        return ast.Name(id="I_i1", ctx=ast.Load())
+                    if t == "-1":
+                        return ast.Name(id="I_last", ctx=ast.Load())
+                return s_.generic_visit(n)
+
+            def visit_IfExp(s_, n):
+                v = self.truth(n.test)
+                if v is True:
+                    return s_.visit(n.body)
+                if v is False:
+                    return s_.visit(n.orelse)
+                return s_.generic_visit(n)
+
+        return R().visit(clone_ast(e))
+
+    def truth(self, t: ast.AST) -> Optional[bool]:
+        txt = src_of(t)
+        if isinstance(t, ast.UnaryOp) and isinstance(t.op, ast.Not):
+            v = self.truth(t.operand)
+            return None if v is None else (not v)
+        if isinstance(t, ast.Name) and isinstance(self.env.get(t.id), bool):
+            return self.env[t.id]
+        for k, v in self.flags.items():
+            if txt == k:
+                return v
+        return None
+
+    def lin(self, e: ast.AST) -> Lin:
+        env = {k: v for k, v in self.env.items() if isinstance(v, Lin)}
+        for alias in ("X.shape[1]", "self.n_input_features_", "len(input_features)"):
+            env.setdefault(alias, Lin.sym("n"))
+        if self.L is not None and self.names_var:
+            env[f"len({self.names_var})"] = self.L
+        return lin(self._rewrite(e), env)
+
+    def value(self, e: ast.AST):
+        if isinstance(e, ast.Name) and e.id in self.env and not isinstance(self.env[e.id], Lin):
+            return self.env[e.id]
+        if isinstance(e, ast.List) and not e.elts:
+            return Acc()
+        if isinstance(e, ast.Call) and src_of(e.func) == "list" and len(e.args) == 1 and isinstance(e.args[0], ast.Call) and src_of(e.args[0].func) == "range":
+            r = e.args[0].args
+            lo, hi = (Lin(0), self.lin(r[0])) if len(r) == 1 else (self.lin(r[0]), self.lin(r[1]))
+            return Seq(lo, hi - lo)
+        if isinstance(e, ast.BinOp) and isinstance(e.op, ast.Add):
+            l = self.value(e.left) if not isinstance(e.left, ast.Name) or e.left.id in self.env else None
+            if isinstance(l, Seq) and isinstance(e.right, ast.List) and len(e.right.elts) == 1:
+                v = self.lin(e.right.elts[0])
+                if v == l.first + l.count:
+                    return Seq(l.first, l.count + Lin(1))
+                raise Unsupported("list of boundaries is not consecutive")
+        if isinstance(e, ast.IfExp):
+            v = self.truth(e.test)
+            if v is not None:
+                return self.value(e.body if v else e.orelse)
+        return self.lin(e)
+
+    # ---- statements
+    def run(self, stmts):
+        for s in stmts:
+            self.stmt(s)
+
+    def bind(self, t, v):
+        if isinstance(t, ast.Name):
+            self.env[t.id] = v
+
+    def stmt(self, s):
+        if isinstance(s, ast.Assign) and len(s.targets) == 1:
+            t = s.targets[0]
+            if isinstance(t, (ast.Tuple, ast.List)):
+                if isinstance(s.value, (ast.Tuple, ast.List)) and len(s.value.elts) == len(t.elts):
+                    vals = [self.value(v) for v in s.value.elts]
+                    for a, v in zip(t.elts, vals):
+                        self.bind(a, v)
+                    return
+                if isinstance(s.value, ast.Call):
+                    vals = self.call_helper(s.value)
+                    if vals is not None and len(vals) == len(t.elts):
+                        for a, v in zip(t.elts, vals):
+                            self.bind(a, v)
+                        return
+                raise Unsupported(f"tuple assignment {src_of(s)[:50]}")
+            if isinstance(t, ast.Subscript):
+                # XP[:, a:b] = X : the first-degree block
+                sl = _slice(t)
+                if sl is not None:
+                    lo, hi = self.lin(sl.lower), self.lin(sl.upper)
+                    self.events.append(("copy", lo, hi - lo, src_of(s.value)))
+                    return
+                self.events.append(("store", src_of(t), src_of(s.value)))
+                return
+            if isinstance(t, ast.Name):
+                try:
+                    self.env[t.id] = self.value(s.value)
+                except LinErr:
+                    self.env[t.id] = None
+                return
+        if isinstance(s, ast.AugAssign) and isinstance(s.target, ast.Name) and isinstance(s.op, (ast.Add, ast.Sub)):
+            cur = self.env.get(s.target.id)
+            if isinstance(cur, Lin):
+                d = self.lin(s.value)
+                self.env[s.target.id] = cur + d if isinstance(s.op, ast.Add) else cur - d
+                return
+        if isinstance(s, ast.Expr) and isinstance(s.value, ast.Call):
+            c = s.value
+            f = c.func
+            if isinstance(f, ast.Attribute) and isinstance(f.value, ast.Name):
+                obj = self.env.get(f.value.id)
+                if f.attr == "append" and isinstance(obj, Seq) and len(c.args) == 1:
+                    v = self.lin(c.args[0])
+                    if not (v == obj.first + obj.count):
+                        raise Unsupported("boundary appended is not the next position")
+                    obj.count = obj.count + Lin(1)
+                    return
+                if f.attr == "append" and isinstance(obj, Acc) and len(c.args) == 1:
+                    obj.items.append(self.lin(c.args[0]))
+                    self.events.append(("record", obj.items[-1]))
+                    return
+                if f.value.id == self.names_var and f.attr == "append" and len(c.args) == 1 and isinstance(c.args[0], ast.Constant) and isinstance(c.args[0].value, str):
+                    self.events.append(("literal", self.L, c.args[0].value))
+                    self.L = self.L + Lin(1)
+                    return
+                if f.value.id == self.names_var and f.attr in ("extend", "append"):
+                    self.grow(c, f.attr)
+                    return
+            if isinstance(f, ast.Name) and len(c.args) == 3 and all(_slice(a) is not None for a in c.args):
+                S, F, D = [_slice(a) for a in c.args]
+                self.events.append(("mul", self.lin(S.lower), self.lin(S.upper), self.lin(F.lower), self.lin(F.upper), self.lin(D.lower), self.lin(D.upper), [src_of(a.value) for a in c.args], src_of(f)))
+                return
+            vals = self.call_helper(c)
+            if vals is not None:
+                return
+            raise Unsupported(f"call {src_of(c)[:50]}")
+        if isinstance(s, ast.If):
+            v = self.truth(s.test)
+            if v is not None:
+                self.run(s.body if v else s.orelse)
+                return
+            # `if <width> <= 0: break` style guard
+            if not s.orelse and len(s.body) == 1 and isinstance(s.body[0], (ast.Break, ast.Continue)) and isinstance(s.test, ast.Compare) and len(s.test.ops) == 1:
+                l, r = self.lin(s.test.left), self.lin(s.test.comparators[0])
+                op = s.test.ops[0]
+                if isinstance(op, (ast.LtE, ast.Lt)):
+                    d = l - r  # exits when d <= 0 (or < 0)
+                elif isinstance(op, (ast.GtE, ast.Gt)):
+                    d = r - l
+                else:
+                    raise Unsupported("guard operator")
+                self.events.append(("guard", d, isinstance(op, (ast.LtE, ast.GtE)), isinstance(s.body[0], ast.Break)))
+                return
+            # `if <width> > 0: STEP` form
+            raise Unsupported(f"branch on {src_of(s.test)[:40]}")
+        if isinstance(s, ast.For):
+            # a loop of appends over a slice of the names: grows the list by the slice width
+            if self.names_var and isinstance(s.iter, ast.Subscript) and src_of(s.iter.value) == self.names_var and isinstance(s.iter.slice, ast.Slice) and len(s.body) == 1 and isinstance(s.body[0], ast.Expr) and isinstance(s.body[0].value, ast.Call) and src_of(s.body[0].value.func) == f"{self.names_var}.append":
+                self.grow_from(s.iter.slice, src_of(s.target), s.body[0].value.args[0])
+                return
+            raise Unsupported("nested loop")
+        if isinstance(s, (ast.Pass, ast.Assert)) or (isinstance(s, ast.Expr) and isinstance(s.value, ast.Constant)):
+            return
+        raise Unsupported(f"statement {src_of(s)[:50]}")
+
+    def grow(self, c: ast.Call, how: str):
+        a = c.args[0]
+        if how == "extend" and isinstance(a, ast.Name):
+            # names.extend(input_features): n names, the features in order
+            self.events.append(("copy", self.L, Lin.sym("n"), a.id))
+            self.L = self.L + Lin.sym("n")
+            return
+        if how == "extend" and isinstance(a, (ast.ListComp, ast.GeneratorExp)) and len(a.generators) == 1 and not a.generators[0].ifs:
+            g = a.generators[0]
+            if isinstance(g.iter, ast.Subscript) and src_of(g.iter.value) == self.names_var and isinstance(g.iter.slice, ast.Slice):
+                self.grow_from(g.iter.slice, src_of(g.target), a.elt)
+                return
+        raise Unsupported(f"growth of the names {src_of(c)[:50]}")
+
+    def grow_from(self, sl: ast.Slice, var: str, elt: ast.AST):
+        lo, hi = self.lin(sl.lower), self.lin(sl.upper)
+        parts = []
+
+        def flat(e):
+            if isinstance(e, ast.BinOp) and isinstance(e.op, ast.Add):
+                flat(e.left)
+                flat(e.right)
+            else:
+                parts.append(e)
+
+        flat(elt)
+        fac = None
+        if len(parts) == 3 and src_of(parts[0]) == var and const_value(parts[1]) == " " and isinstance(parts[2], ast.Subscript) and isinstance(parts[2].value, ast.Name):
+            fac = self.lin(parts[2].slice)
+        elif isinstance(elt, ast.JoinedStr):
+            vals = [v for v in elt.values]
+            if len(vals) == 3 and isinstance(vals[0], ast.FormattedValue) and src_of(vals[0].value) == var and isinstance(vals[1], ast.Constant) and vals[1].value == " " and isinstance(vals[2], ast.FormattedValue) and isinstance(vals[2].value, ast.Subscript):
+                fac = self.lin(vals[2].value.slice)
+        if fac is None:
+            raise Unsupported("appended name is not <block name> + ' ' + input_features[k]")
+        self.events.append(("mul", lo, hi, fac, fac + Lin(1), self.L, self.L + (hi - lo), ["names", "input_features", "names"], "extend"))
+        self.L = self.L + (hi - lo)
+
+    def call_helper(self, c: ast.Call):
+        from .common import resolve_call
+
+        callee = resolve_call(self.repo, self.fi, c)
+        if callee is None or callee.name == "__init__":
+            return None
+        body = [b for b in callee.node.body if not (isinstance(b, ast.Expr) and isinstance(b.value, ast.Constant))]
+        if not body or not isinstance(body[-1], ast.Return):
+            return None
+        sub = Round(self.repo, callee, self.mode, self.flags)
+        sub.names_var, sub.L = self.names_var, self.L
+        ps = callee.named_params
+        for k, a in enumerate(c.args):
+            if k < len(ps):
+                try:
+                    sub.env[ps[k]] = self.value(a)
+                except (LinErr, Unsupported):
+                    sub.env[ps[k]] = None
+        sub.run(body[:-1])
+        self.events += sub.events
+        r = body[-1].value
+        vals = [sub.value(x) for x in (r.elts if isinstance(r, ast.Tuple) else [r])]
+        return vals
+
+
+def _find_structure(fi: FunctionInfo):
+    """(prelude, degree loop, its variable, first-round statements, step prelude,
+    feature loop, its variable, close statements)"""
+    body = [s for s in fi.node.body if not (isinstance(s, ast.Expr) and isinstance(s.value, ast.Constant))]
+    loops = [s for s in body if isinstance(s, ast.For) and isinstance(s.target, ast.Name) and isinstance(s.iter, ast.Call) and src_of(s.iter.func) == "range" and "degree" in src_of(s.iter)]
+    if len(loops) != 1:
+        raise AnalysisError("degree loop `for d in range(degree)` not found")
+    o = loops[0]
+    dv = o.target.id
+    pre = body[: body.index(o)]
+    first = rest = None
+    for s in o.body:
+        if isinstance(s, ast.If):
+            t = src_of(s.test).replace(" ", "")
+            if t in (f"{dv}==0", f"0=={dv}", f"not{dv}", f"{dv}<1"):
+                first, rest = s.body, s.orelse
+            elif t in (f"{dv}!=0", f"{dv}>0", dv, f"{dv}>=1", f"0<{dv}"):
+                first, rest = s.orelse, s.body
+    if first is None or not rest:
+        raise AnalysisError(f"the branch on the first round (`{dv} == 0`) was not found")
+    inner = [s for s in rest if isinstance(s, ast.For) and isinstance(s.target, ast.Name) and isinstance(s.iter, ast.Call) and src_of(s.iter.func) == "range"]
+    if len(inner) != 1:
+        raise AnalysisError("feature loop `for i in range(n)` not found")
+    k = rest.index(inner[0])
+    return pre, o, dv, first, rest[:k], inner[0], inner[0].target.id, rest[k + 1 :]
+
+
+def _range_lin(it: ast.Call, rd: "Round") -> Tuple[Lin, Lin]:
+    a = it.args
+    if len(a) == 1:
+        return Lin(0), rd.lin(a[0])
+    return rd.lin(a[0]), rd.lin(a[1])
+
+
+def summarise(repo, fi: FunctionInfo, mode: str, interaction_only: Optional[bool] = None) -> Dict[str, str]:
+    """what one round of the recurrence does, as linear forms"""
+    pre, o, dv, first, step_pre, inner, iv, close = _find_structure(fi)
+    out: Dict[str, str] = {}
+    flags_base = {}
+    if interaction_only is not None:
+        flags_base = {"interaction_only": interaction_only, "self.poly_interaction_only": interaction_only}
+    # ---- bias: the write position before the first round, with and without the constant column
+    for bias in (True, False):
+        rd = Round(repo, fi, mode, dict(flags_base, **{"bias": bias, "self.poly_include_bias": bias, "include_bias": bias}))
+        rd.env["n"] = Lin.sym("n")
+        if mode == "names":
+            rd.L = Lin(0)
+        lits: List[str] = []
+        nvar = _names_var(pre) if mode == "names" else None
+        for s in pre:
+            try:
+                if mode == "names" and isinstance(s, ast.Assign) and isinstance(s.targets[0], ast.Name) and s.targets[0].id == nvar:
+                    v = s.value
+                    if isinstance(v, ast.IfExp) and rd.truth(v.test) is not None:
+                        v = v.body if rd.truth(v.test) else v.orelse
+                    if isinstance(v, ast.List) and all(isinstance(e, ast.Constant) and isinstance(e.value, str) for e in v.elts):
+                        rd.names_var = nvar
+                        rd.L = Lin(len(v.elts))
+                        lits = [e.value for e in v.elts]
+                        continue
+                rd.stmt(s)
+            except (Unsupported, LinErr):
+                continue
+        if mode == "names":
+            lits += [e[2] for e in rd.events if e[0] == "literal"]
+            out[f"bias_{bias}_names"] = str(lits)
+        if mode == "values":
+            consts = {k: v for k, v in rd.env.items() if isinstance(v, Lin) and v.is_const() and k != "n"}
+            out[f"bias_{bias}_pos"] = str(sorted(repr(v) for v in consts.values()))
+            ones = [e for e in rd.events if e[0] == "store"]
+            out[f"bias_{bias}_column"] = str([(e[1].replace(" ", ""), e[2]) for e in ones])
+        else:
+            out[f"bias_{bias}_pos"] = str([repr(rd.L)])
+    lo, hi = None, None
+    # ---- first round
+    rd = Round(repo, fi, mode, flags_base)
+    P = Lin.sym("P")
+    rd.env["n"] = Lin.sym("n")
+    _seed(rd, fi, mode, pre, P)
+    rd.run(first)
+    idx = [v for v in rd.env.values() if isinstance(v, Seq)]
+    cp = [e for e in rd.events if e[0] == "copy"]
+    out["first_copy"] = str([(repr(e[1] - P), repr(e[2]), "features" if e[3] in ("X", "input_features") else e[3]) for e in cp])
+    out["first_index"] = str([(repr(x.first - P), repr(x.count)) for x in idx])
+    out["first_pos"] = repr(_pos(rd, mode) - P)
+    # ---- one step of a later round
+    rd = Round(repo, fi, mode, flags_base)
+    rd.env["n"] = Lin.sym("n")
+    _seed(rd, fi, mode, pre, P)
+    prevs = _index_names(first, step_pre + [inner], iv)
+    for nm in prevs:
+        rd.env[nm] = PrevIndex()
+    rd.iv = iv
+    rd.run(step_pre)
+    rl, rh = _range_lin(inner.iter, rd)
+    out["feature_loop"] = f"{rl!r}..{rh!r}"
+    dl, dh = _range_lin(o.iter, rd)
+    out["degree_loop"] = f"{dl!r}..{repr(dh).replace('self.poly_degree', 'degree')}"
+    rd.env[iv] = Lin.sym("i")
+    n_pre = len(rd.events)
+    rd.run(inner.body)
+    ev = rd.events[n_pre:]
+    mul = [e for e in ev if e[0] == "mul"]
+    rec = [e for e in ev if e[0] == "record"]
+    grd = [e for e in ev if e[0] == "guard"]
+    if len(mul) != 1:
+        raise Unsupported(f"{len(mul)} block writes in one step")
+    m = mul[0]
+    out["src_lower"] = repr(m[1])
+    out["src_upper"] = repr(m[2])
+    out["factor"] = f"{m[3]!r} (+{(m[4] - m[3])!r})"
+    out["dest"] = f"{(m[5] - P)!r} width {(m[6] - m[5])!r}"
+    out["widths_equal"] = str((m[6] - m[5]) == (m[2] - m[1]))
+    out["operands"] = str(m[7])
+    order = [e[0] for e in ev]
+    out["record"] = str([repr(e[1] - P) for e in rec])
+    out["record_first"] = str(bool(rec) and order.index("record") < order.index("mul") and ("guard" not in order or order.index("record") < order.index("guard")))
+    out["guards"] = str([(repr(g[1] - (m[6] - m[5])), g[2], g[3]) for g in grd]) if mode == "values" else "[]"
+    out["step_pos"] = repr(_pos(rd, mode) - P - (m[6] - m[5]))
+    # ---- close of the round
+    n_pre = len(rd.events)
+    P2 = _pos(rd, mode)
+    rd.run(close)
+    ev = rd.events[n_pre:]
+    out["close_record"] = str([repr(e[1] - P2) for e in ev if e[0] == "record"])
+    accs = {k for k, v in rd.env.items() if isinstance(v, Acc)}
+    out["close_swap"] = str(sorted(k for k in prevs if isinstance(rd.env.get(k), Acc)) == sorted(prevs) and bool(prevs))
+    out["reset"] = str(all(len(v.items) == 2 for v in rd.env.values() if isinstance(v, Acc)))
+    return out
+
+
+def _pos(rd: "Round", mode: str) -> Lin:
+    if mode == "names":
+        return rd.L
+    v = rd.env.get(rd.pos_name)
+    if not isinstance(v, Lin):
+        raise Unsupported("write position lost")
+    return v
+
+
+def _names_var(pre) -> Optional[str]:
+    """the list the names are accumulated in: initialised before the rounds from
+    list literals (`["1"] if bias else []`, or `[]` followed by an append)"""
+    nv = None
+    for s in pre:
+        if isinstance(s, ast.Assign) and isinstance(s.targets[0], ast.Name):
+            v = s.value
+            vs = [v.body, v.orelse] if isinstance(v, ast.IfExp) else [v]
+            if all(isinstance(x, ast.List) and all(isinstance(e, ast.Constant) for e in x.elts) for x in vs):
+                nv = s.targets[0].id
+    return nv
+
+
+def _seed(rd: "Round", fi, mode, pre, P):
+    if mode == "names":
+        rd.names_var = _names_var(pre)
+        for s in pre:
+            if isinstance(s, ast.Assign) and isinstance(s.targets[0], ast.Name) and src_of(s.value) in ("self.n_input_features_", "X.shape[1]"):
+                rd.env[s.targets[0].id] = Lin.sym("n")
+            if isinstance(s, ast.Assign) and isinstance(s.targets[0], ast.Name) and src_of(s.value) in ("self.poly_interaction_only",) and "interaction_only" in rd.flags:
+                rd.env[s.targets[0].id] = rd.flags["interaction_only"]
+        if rd.names_var is None:
+            raise Unsupported("the list of names is not initialised before the rounds")
+        rd.L = P
+    else:
+        # the write position: the variable given a constant in both branches of the bias test
+        cands = {}
+        for s in pre:
+            for x in ast.walk(s):
+                if isinstance(x, ast.Assign) and isinstance(x.targets[0], ast.Name) and isinstance(x.value, ast.Constant) and isinstance(x.value.value, int):
+                    cands.setdefault(x.targets[0].id, 0)
+                    cands[x.targets[0].id] += 1
+            if isinstance(s, ast.Assign) and isinstance(s.targets[0], ast.Name) and src_of(s.value) in ("X.shape[1]",):
+                rd.env[s.targets[0].id] = Lin.sym("n")
+        names = [k for k, v in cands.items() if v >= 1]
+        if len(names) != 1:
+            raise Unsupported(f"write position variable not identified ({names})")
+        rd.pos_name = names[0]
+        rd.env[rd.pos_name] = P
+
+
+def _index_names(first, rest=None, iv=None) -> List[str]:
+    """names bound in the first round that later rounds read as block boundaries
+    (subscripted with -1, the feature variable or the feature variable + 1)"""
+    bound = set()
+    for s in first:
+        for x in ast.walk(s):
+            if isinstance(x, ast.Assign):
+                for t in x.targets:
+                    for e in (t.elts if isinstance(t, (ast.Tuple, ast.List)) else [t]):
+                        if isinstance(e, ast.Name):
+                            bound.add(e.id)
+    used = set()
+    for s in rest or []:
+        for x in ast.walk(s):
+            if isinstance(x, ast.Subscript) and isinstance(x.value, ast.Name) and x.value.id in bound and isinstance(x.ctx, ast.Load):
+                t = src_of(x.slice).replace(" ", "")
+                if t == "-1" or (iv is not None and t in (iv, f"{iv}+1", f"1+{iv}")):
+                    used.add(x.value.id)
+    return sorted(used)
 
 
 def check_a(ck, repo):
     for name in ("_transform_iall", "_transform_ionly"):
         fi = repo.func(POLY, name)
         try:
-            o, inner, iff = _inner_loop(fi.node)
-        except AnalysisError as e:
-            ck.unknown("C11.a", fi, name, str(e))
+            sm = summarise(repo, fi, "values")
+        except (AnalysisError, Unsupported, LinErr) as e:
+            ck.unknown("C11.a", fi, name, f"cannot follow one round of the recurrence: {e}")
             continue
-        pre = [s for s in iff.orelse if s.lineno < inner.lineno]
-        base = _env_of(pre)
-        calls = [c for c in ast.walk(inner) if isinstance(c, ast.Call) and src_of(c.func) == "multiply"]
-        if len(calls) != 1 or len(calls[0].args) != 3:
-            ck.unknown("C11.a", fi, "multiply(...)", f"{len(calls)} multiply calls in the feature loop")
-            continue
-        c = calls[0]
-        st = None
-        for s in inner.body:
-            if any(x is c for x in ast.walk(s)):
-                st = s
-        env = _env_of(inner.body, upto=st, base=base)
-        S, F, D = [_slice(a) for a in c.args]
-        if S is None or F is None or D is None:
-            ck.unknown("C11.a", fi, c, "multiply arguments are not column slices")
-            continue
-        try:
-            ws = lin(S.upper, env) - lin(S.lower, env)
-            wd = lin(D.upper, env) - lin(D.lower, env)
-            wf = lin(F.upper, env) - lin(F.lower, env)
-        except (LinErr, AttributeError) as e:
-            ck.unknown("C11.a", fi, c, f"cannot form slice widths: {e}")
-            continue
-        ck.verdict(ws == wd, "C11.a", fi, c, f"destination width {wd!r} == source width {ws!r}", f"destination slice is {wd!r} wide but the source block is {ws!r} wide: numpy broadcasts or raises, and every later block is shifted")
-        ck.verdict(wf == Lin(1) and src_of(F.lower) == "i", "C11.a", fi, f"factor {src_of(c.args[1])}", "the block is multiplied by the single column i", f"the factor {src_of(c.args[1])} is not the single column i")
-        ck.verdict(src_of(c.args[0].value) == "XP" and src_of(c.args[2].value) == "XP" and src_of(c.args[1].value) == "X", "C11.a", fi, "multiply(XP[..], X[..], XP[..])", "source and destination are blocks of the output, factor comes from the input", "multiply operands are not (XP block, X column, XP block)")
-        # pos advances to the end of the block just written
-        adv = [s for s in inner.body if isinstance(s, ast.Assign) and src_of(s.targets[0]) == "pos" and s.lineno > c.lineno]
-        ok = len(adv) == 1 and src_of(adv[0].value) == src_of(D.upper)
-        ck.verdict(ok, "C11.a", fi, adv[0] if adv else "pos = new_pos", "write position advances to the end of the block written", "the write position is not advanced to the end of the destination block: blocks overlap or leave gaps")
-        # neutral guard for ionly
-        brk = [s for s in inner.body if isinstance(s, ast.If) and any(isinstance(x, (ast.Break, ast.Continue, ast.Return)) for x in s.body)]
-        for b in brk:
-            try:
-                t = b.test
-                okb = isinstance(t, ast.Compare) and len(t.ops) == 1 and isinstance(t.ops[0], ast.LtE) and (lin(t.left, env) - lin(t.comparators[0], env)) == wd and isinstance(b.body[0], ast.Break) and b.lineno < c.lineno
-            except LinErr:
-                okb = False
-            ck.verdict(okb, "C11.a", fi, b.test, "early exit only when the destination block is empty (no column skipped)", f"early exit `{src_of(b.test)}` does not test the emptiness of the block about to be written: columns are skipped")
+        ck.verdict(sm["widths_equal"] == "True", "C11.a", fi, f"{name}: destination {sm['dest']}, source [{sm['src_lower']}, {sm['src_upper']})", "destination block exactly as wide as the source block", f"destination block ({sm['dest']}) is not as wide as the source block [{sm['src_lower']}, {sm['src_upper']}): numpy broadcasts or raises, and every later block is shifted")
+        ck.verdict(sm["factor"] == "i (+1)", "C11.a", fi, f"{name}: factor column {sm['factor']}", "the block is multiplied by the single column i", f"the factor columns are {sm['factor']}, not the single column i")
+        ck.verdict(sm["operands"] == str(["XP", "X", "XP"]), "C11.a", fi, f"{name}: operands {sm['operands']}", "source and destination are blocks of the output, factor comes from the input", "multiply operands are not (XP block, X column, XP block)")
+        ck.verdict(sm["dest"].startswith("0 width") and sm["step_pos"] == "0", "C11.a", fi, f"{name}: write at {sm['dest']}, then position {sm['step_pos']} past the block", "the block is written at the write position, which then advances to its end", "the destination does not start at the write position, or the position is not advanced to the end of the block: blocks overlap or leave gaps")
+        for g in eval(sm["guards"]):
+            ck.verdict(g[0] == "0" and g[1] and g[2], "C11.a", fi, f"{name}: early exit when width {g[0]} <= 0", "early exit only when the destination block is empty (no column skipped)", f"the early exit does not test the emptiness of the block about to be written (width {g[0]}{' <=' if g[1] else ' <'} 0{'' if g[2] else ', continue'}): columns are skipped")
 
 
-def _summary_transform(fi: FunctionInfo) -> Dict[str, str]:
-    o, inner, iff = _inner_loop(fi.node)
-    pre = [s for s in iff.orelse if s.lineno < inner.lineno]
-    post = [s for s in iff.orelse if s.lineno > inner.end_lineno]
-    sym = {"index[i]": Lin.sym("I_i"), "index[i + 1]": Lin.sym("I_i1"), "index[-1]": Lin.sym("I_last")}
-    base = _env_of(pre, base=sym)
-    c = [x for x in ast.walk(inner) if isinstance(x, ast.Call) and src_of(x.func) == "multiply"][0]
-    st = [s for s in inner.body if any(x is c for x in ast.walk(s))][0]
-    env = _env_of(inner.body, upto=st, base=base)
-    S = _slice(c.args[0])
-    D = _slice(c.args[2])
-    rec = [s for s in inner.body if isinstance(s, ast.Expr) and src_of(s.value).startswith("new_index.append(")]
-    out = {
-        "src_lower": repr(lin(S.lower, env)),
-        "src_upper": repr(lin(S.upper, env)),
-        "factor": src_of(_slice(c.args[1]).lower),
-        "record_before_write": str(
-            len(rec) == 1
-            and rec[0].lineno < c.lineno
-            and src_of(rec[0].value) == f"new_index.append({src_of(D.lower)})"
-            # recorded for EVERY feature, also when the block is empty and the loop exits early
-            and all(rec[0].lineno < x.lineno for x in ast.walk(inner) if isinstance(x, (ast.Break, ast.Continue)))
-        ),
-        "close": str([src_of(s) for s in post] == ["new_index.append(pos)", "index = new_index"]),
-        "reset": str(any(src_of(s) == "new_index = []" for s in pre)),
-    }
-    # first-degree block
-    first = [src_of(s) for s in iff.body]
-    out["first_block"] = str(first == ["XP[:, pos:pos + n] = X", "index = list(range(pos, pos + n))", "pos += n", "index.append(pos)"])
-    # bias
-    b = [s for s in fi.node.body if isinstance(s, ast.If) and src_of(s.test) == "bias"]
-    out["bias"] = str(len(b) == 1 and [src_of(x) for x in b[0].body] == ["XP[:, 0] = 1", "pos = 1"] and [src_of(x) for x in b[0].orelse] == ["pos = 0"])
-    out["degree_loop"] = src_of(o.iter)
-    out["feature_loop"] = src_of(inner.iter)
-    nn = [src_of(s.value) for s in fi.node.body if isinstance(s, ast.Assign) and src_of(s.targets[0]) == "n"]
-    out["n"] = str(nn)
-    return out
-
-
-def _summary_names(fi: FunctionInfo, interaction_only: bool) -> Dict[str, str]:
-    o, inner, iff = _inner_loop(fi.node)
-    pre = [s for s in iff.orelse if s.lineno < inner.lineno]
-    post = [s for s in iff.orelse if s.lineno > inner.end_lineno]
-    sym = {"index[i]": Lin.sym("I_i"), "index[i + 1]": Lin.sym("I_i1"), "index[-1]": Lin.sym("I_last")}
-    base = _env_of(pre, base=sym)
-
-    class PE(ast.NodeTransformer):
-        def visit_IfExp(self, node):
-            self.generic_visit(node)
-            if src_of(node.test) == "interaction_only":
-                return node.body if interaction_only else node.orelse
-            return node
-
-    import copy
-
-    body = [PE().visit(clone_ast(s)) for s in inner.body]
-    for s in body:
-        ast.fix_missing_locations(s)
-    ext = [s for s in body if isinstance(s, ast.Expr) and src_of(s.value).startswith("names.extend(")]
-    if len(ext) != 1:
-        raise AnalysisError("names.extend(...) not found in the names recurrence")
-    env = _env_of(body, upto=ext[0], base=base)
-    comp = ext[0].value.args[0]
-    if not isinstance(comp, ast.ListComp) or len(comp.generators) != 1:
-        raise AnalysisError("names.extend argument is not a list comprehension")
-    it = comp.generators[0].iter
-    if not (isinstance(it, ast.Subscript) and src_of(it.value) == "names" and isinstance(it.slice, ast.Slice)):
-        raise AnalysisError("names block is not names[start:end]")
-    var = src_of(comp.generators[0].target)
-    elt = comp.elt
-    fac = None
-    if isinstance(elt, ast.BinOp) and isinstance(elt.op, ast.Add):
-        # <var> + " " + input_features[i]
-        parts = []
-        def flat(e):
-            if isinstance(e, ast.BinOp) and isinstance(e.op, ast.Add):
-                flat(e.left); flat(e.right)
-            else:
-                parts.append(e)
-        flat(elt)
-        if len(parts) == 3 and src_of(parts[0]) == var and const_value(parts[1]) == " " and isinstance(parts[2], ast.Subscript) and src_of(parts[2].value) == "input_features":
-            fac = src_of(parts[2].slice)
-    rec = [s for s in body if isinstance(s, ast.Expr) and src_of(s.value).startswith("new_index.append(")]
-    out = {
-        "src_lower": repr(lin(it.slice.lower, env)),
-        "src_upper": repr(lin(it.slice.upper, env)),
-        "factor": str(fac),
-        "record_before_write": str(len(rec) == 1 and rec[0].lineno < ext[0].lineno and src_of(rec[0].value) == "new_index.append(len(names))"),
-        "close": str([src_of(s) for s in post] == ["new_index.append(len(names))", "index = new_index"]),
-        "reset": str(any(src_of(s) == "new_index = []" for s in pre)),
-    }
-    first = [src_of(s) for s in iff.body]
-    out["first_block"] = str(first == ["pos = len(names)", "names.extend(input_features)", "index = list(range(pos, len(names)))", "index.append(len(names))"])
-    b = [s for s in own_nodes(fi.node) if isinstance(s, ast.Assign) and src_of(s.targets[0]) == "names" and isinstance(s.value, ast.IfExp)]
-    out["bias"] = str(len(b) == 1 and src_of(b[0].value) == "['1'] if self.poly_include_bias else []")
-    out["degree_loop"] = src_of(o.iter).replace("self.poly_degree", "degree")
-    out["feature_loop"] = src_of(inner.iter)
-    nn = [src_of(s.value) for s in own_nodes(fi.node) if isinstance(s, ast.Assign) and src_of(s.targets[0]) == "n"]
-    out["n"] = str(["X.shape[1]"] if nn == ["self.n_input_features_"] else nn)
-    return out
+SHARED = ["first_copy", "first_index", "first_pos", "feature_loop", "degree_loop", "src_lower", "src_upper", "factor", "dest", "record", "record_first", "step_pos", "close_record", "close_swap", "reset", "bias_True_pos", "bias_False_pos"]
+EXPECT = {"first_copy": "[('0', 'n', 'features')]", "first_index": "[('0', 'n+1')]", "first_pos": "n", "record": "['0']", "record_first": "True", "step_pos": "0", "close_record": "['0']", "close_swap": "True", "reset": "True", "bias_True_pos": "['1']", "bias_False_pos": "['0']", "feature_loop": "0..n", "factor": "i (+1)"}
+WHAT = {
+    "first_copy": "the first round copies the n input columns / names at the write position",
+    "first_index": "the first round records the n+1 consecutive block boundaries P..P+n",
+    "first_pos": "the first round advances the write position by n",
+    "record": "each step records the current write position as a block boundary",
+    "record_first": "the boundary is recorded before the block is written and before any early exit",
+    "step_pos": "the write position advances by the width of the block written",
+    "close_record": "the round is closed by recording the final write position",
+    "close_swap": "the boundaries recorded become the previous round's boundaries",
+    "reset": "boundaries are recorded into a fresh list each round",
+    "bias_True_pos": "with the constant column the first block starts at 1",
+    "bias_False_pos": "without the constant column the first block starts at 0",
+}
 
 
 def check_b(ck, repo):
@@ -223,79 +565,130 @@ def check_b(ck, repo):
     names = ci.methods.get("_get_feature_names_poly")
     if names is None:
         raise AnalysisError("anchor vanished: ExtendedFeatures._get_feature_names_poly")
+    ex = expander(repo)
     for tname, io in (("_transform_iall", False), ("_transform_ionly", True)):
         tf = repo.func(POLY, tname)
         try:
-            a = _summary_transform(tf)
-            b = _summary_names(names, io)
-        except (AnalysisError, LinErr, IndexError) as e:
-            ck.unknown("C11.b", tf, f"{tname} vs names(interaction_only={io})", f"cannot summarise: {e}")
+            a = summarise(repo, tf, "values")
+            b = summarise(repo, names, "names", io)
+        except (AnalysisError, Unsupported, LinErr, IndexError, KeyError) as e:
+            ck.unknown("C11.b", tf, f"{tname} vs names(interaction_only={io})", f"cannot summarise one round of the recurrences: {e}")
             continue
-        for k in sorted(a):
-            va, vb = a[k], b.get(k)
+        for k in SHARED:
+            va, vb = a.get(k), b.get(k)
             label = f"{tname} vs names[interaction_only={io}]: {k}"
-            if k in ("record_before_write", "close", "reset", "first_block", "bias"):
-                ck.verdict(va == "True" and vb == "True", "C11.b", tf if va != "True" else names, label, "both recurrences have this step", f"step '{k}' is {va} in {tname} and {vb} in the names recurrence: names no longer describe the columns")
+            if k in EXPECT:
+                bad = [n_ for n_, v in ((tname, va), ("the names recurrence", vb)) if v != EXPECT[k]]
+                ck.verdict(not bad, "C11.b", tf if va != EXPECT[k] else names, label + f" = {va}", WHAT.get(k, "identical in both recurrences"), f"{k} is {va} in {tname} and {vb} in the names recurrence (expected {EXPECT[k]}): {WHAT.get(k, 'the recurrences differ')} does not hold, so names no longer describe the columns")
             else:
                 ck.verdict(va == vb, "C11.b", names, label + f" = {va}", "identical in both recurrences", f"{k}: {tname} uses {va} but the names recurrence uses {vb}: column j is not named by the monomial it contains")
+        ck.verdict(a.get("bias_True_column") == "[('XP[:,0]', '1')]" and a.get("bias_False_column") == "[]" and b.get("bias_True_names") == "['1']" and b.get("bias_False_names") == "[]", "C11.b", tf, f"{tname}: constant column {a.get('bias_True_column')} / name {b.get('bias_True_names')}", "the constant column is column 0, filled with 1 and named '1', only with include_bias", "the constant column / its name are not handled alike by the values and the names")
     # the names function is a pure function of the fitted configuration: no instance cache
     stores = [x for x in own_nodes(names.node) if isinstance(x, (ast.Assign, ast.AugAssign)) and any(isinstance(t, ast.Attribute) and isinstance(t.value, ast.Name) and t.value.id == "self" for t in (x.targets if isinstance(x, ast.Assign) else [x.target]))]
     ck.verdict(not stores, "C11.b", names, stores[0] if stores else "no store to self.* in _get_feature_names_poly", "names are recomputed from the current parameters at every call", "feature names are cached on the instance: after set_params (degree, flags) and a refit, names, n_output_features_ and the transform width describe the previous configuration")
-    rets = [src_of(r.value) for r in own_nodes(names.node) if isinstance(r, ast.Return)]
-    ck.verdict(rets == ["names"], "C11.b", names, f"returns {rets}", "single exit returning the names built by the recurrence", f"_get_feature_names_poly returns {rets}: some path returns something else than the names built by the recurrence")
-    pn = [f for f in repo.all_functions.values() if f.parent is names and f.name == "process_name"]
-    if pn:
-        par = pn[0].named_params[0]
-        raw = [c for c in own_nodes_incl_lambda(pn[0].node) if isinstance(c, ast.Call) and isinstance(c.func, ast.Attribute) and c.func.attr in ("count", "find", "index") and isinstance(c.func.value, ast.Name) and c.func.value.id == par]
-        ck.verdict(not raw, "C11.b", pn[0], raw[0] if raw else "exponents counted on the token list", "exponents are counted over whole factor names", f"`{src_of(raw[0]) if raw else ''}` counts substring occurrences in the joined name: 'x1' is also counted inside 'x10', so a column is named by another monomial than the one it contains")
-    # dispatchers
-    kinds = {}
-    for m in ("get_feature_names_out", "fit", "transform"):
+    # every exit returns the names built by the recurrence, each formatted by the exponent formatter
+    rets = [r for r in own_nodes(names.node) if isinstance(r, ast.Return)]
+    fmt = None
+    okr = bool(rets)
+    try:
+        nv = _names_var(_find_structure(names)[0])
+    except AnalysisError:
+        nv = None
+    for r in rets:
+        v = r.value
+        if isinstance(v, ast.Name):
+            ds = [x for x in own_nodes(names.node) if isinstance(x, ast.Assign) and src_of(x.targets[0]) == v.id and isinstance(x.value, (ast.ListComp,))]
+            v = ds[-1].value if ds else v
+        if isinstance(v, ast.ListComp) and len(v.generators) == 1 and not v.generators[0].ifs and src_of(v.generators[0].iter) == nv and isinstance(v.elt, ast.Call) and len(v.elt.args) == 1 and src_of(v.elt.args[0]) == src_of(v.generators[0].target):
+            fmt = resolve_call(repo, names, v.elt)
+        else:
+            okr = False
+    ck.verdict(okr and fmt is not None, "C11.b", names, f"returns {[src_of(r.value)[:50] for r in rets]}", "single kind of exit: the names built by the recurrence, each passed through the exponent formatter", f"_get_feature_names_poly returns {[src_of(r.value) for r in rets]}: some path returns something else than the names built by the recurrence")
+    if fmt is not None:
+        par = fmt.named_params[0]
+        raw = [c for c in own_nodes_incl_lambda(fmt.node) if isinstance(c, ast.Call) and isinstance(c.func, ast.Attribute) and c.func.attr in ("count", "find", "index") and isinstance(c.func.value, ast.Name) and c.func.value.id == par]
+        ck.verdict(not raw, "C11.b", fmt, raw[0] if raw else "exponents counted on the token list", "exponents are counted over whole factor names", f"`{src_of(raw[0]) if raw else ''}` counts substring occurrences in the joined name: 'x1' is also counted inside 'x10', so a column is named by another monomial than the one it contains")
+    # dispatchers: evaluated for kind = 'poly', 'poly-slow' and an unknown kind
+    want_ret = {
+        "get_feature_names_out": {"poly": "self._get_feature_names_poly(input_features)", "poly-slow": "self._get_feature_names_poly(input_features)"},
+        "fit": {"poly": "self._fit_poly(X, y)", "poly-slow": "self._fit_poly(X, y)"},
+        "transform": {"poly": "self._transform_poly(X)", "poly-slow": "self._transform_poly_slow(X)"},
+    }
+    for m, table in want_ret.items():
         fi = ci.methods[m]
-        lits = sorted(const_value(s.test.comparators[0]) for s in own_nodes(fi.node) if isinstance(s, ast.If) and isinstance(s.test, ast.Compare) and is_self_attr(s.test.left, "kind") and isinstance(const_value(s.test.comparators[0]), str))
-        kinds[m] = lits
-        ck.verdict(lits == ["poly", "poly-slow"] and any(isinstance(x, ast.Raise) for x in own_nodes(fi.node)), "C11.b", fi, f"{m}: kinds {lits}", "dispatch on exactly 'poly' and 'poly-slow', anything else raises", f"{m} dispatches on {lits}")
-    tr = ci.methods["transform"]
-    targets = {const_value(s.test.comparators[0]): src_of(s.body[0]) for s in own_nodes(tr.node) if isinstance(s, ast.If) and isinstance(s.test, ast.Compare) and is_self_attr(s.test.left, "kind")}
-    ck.verdict(targets == {"poly": "return self._transform_poly(X)", "poly-slow": "return self._transform_poly_slow(X)"}, "C11.b", tr, f"{targets}", "each kind goes to its own implementation", "kind dispatch in transform changed")
-    # transform_poly picks the recurrence matching the interaction flag and passes degree/bias in order
-    tp = ci.methods["_transform_poly"]
-    calls = {src_of(c.func): c for c in own_nodes_incl_lambda(tp.node) if isinstance(c, ast.Call) and src_of(c.func) in ("_transform_ionly", "_transform_iall")}
-    want_args = ["self.poly_degree", "self.poly_include_bias", "XP", "X", "multiply", "final"]
-    for fn, c in calls.items():
-        ck.verdict([src_of(a) for a in c.args] == want_args, "C11.b", tp, c, "degree, bias, output, input passed in the recurrence's parameter order", f"{fn} is called with {[src_of(a) for a in c.args]}")
-    io = [s for s in own_nodes(tp.node) if isinstance(s, ast.If) and is_self_attr(s.test, "poly_interaction_only")]
-    ok = len(io) == 1 and any(isinstance(x, ast.Call) and src_of(x.func) == "_transform_ionly" for x in ast.walk(io[0].body[0])) and len(calls) == 2
-    ck.verdict(ok, "C11.b", tp, io[0].test if io else "if self.poly_interaction_only", "interaction-only flag selects the interaction-only recurrence", "the interaction flag does not select _transform_ionly / _transform_iall as expected")
-    mul = [f for f in repo.all_functions.values() if f.parent is tp and f.name == "multiply"]
-    if mul:
-        r = [src_of(x) for x in own_nodes(mul[0].node) if isinstance(x, ast.Return)]
-        ck.verdict(r == ["return numpy.multiply(A, B, out=C)"], "C11.b", mul[0], r[0] if r else "multiply", "multiply writes A * B into C", "the multiply callback is not numpy.multiply(A, B, out=C)")
-    # widths
-    for m in ("_transform_poly", "_transform_poly_slow"):
-        fi = ci.methods[m]
-        al = [s for s in own_nodes(fi.node) if isinstance(s, ast.Assign) and src_of(s.targets[0]) == "XP"]
-        ok = len(al) == 1 and isinstance(al[0].value, ast.Call) and src_of(al[0].value.args[0]) == "(X.shape[0], self.n_output_features_)"
-        ck.verdict(ok, "C11.b", fi, al[0] if al else "XP = numpy.empty((n, n_output_features_))", "output has n_output_features_ columns", "allocated output width is not n_output_features_")
+        for kind, w in table.items():
+            ps = [p for p in paths(fi, {"self.kind": kind}) if p.ret != RAISE]
+            got = sorted(set(p.ret_text() for p in ps))
+            ck.verdict(got == [w], "C11.b", fi, f"{m}[kind={kind!r}] -> {got}", "each kind goes to its own implementation", f"{m} with kind={kind!r} returns {got}, expected {w}")
+        ps = [p for p in paths(fi, {"self.kind": "<other>"}) if p.ret != RAISE]
+        ck.verdict(not ps, "C11.b", fi, f"{m}[unknown kind] raises", "an unknown kind is refused", f"{m} accepts an unknown kind")
+    # fit: widths recorded, input width before the names are counted
     fit = ci.methods["fit"]
-    nf = [s for s in own_nodes(fit.node) if isinstance(s, ast.Assign) and any(is_self_attr(t, "n_output_features_") for t in s.targets)]
-    ni = [s for s in own_nodes(fit.node) if isinstance(s, ast.Assign) and any(is_self_attr(t, "n_input_features_") for t in s.targets)]
-    ck.verdict(len(nf) == 1 and src_of(nf[0].value) == "len(self.get_feature_names_out())", "C11.b", fit, nf[0] if nf else "n_output_features_ = len(names)", "n_output_features_ is the number of names", "n_output_features_ is not the number of feature names")
-    ck.verdict(len(ni) == 1 and src_of(ni[0].value) == "X.shape[1]" and nf and ni[0].lineno < nf[0].lineno, "C11.b", fit, ni[0] if ni else "n_input_features_ = X.shape[1]", "input width recorded before the names are counted", "n_input_features_ is not X.shape[1] set before counting names")
-    # slow path: same combinations arguments
+    for p in paths(fit, {"self.kind": "poly"}):
+        if p.ret == RAISE:
+            continue
+        keys = list(p.stores)
+        ok = keys[:2] == ["self.n_input_features_", "self.n_output_features_"] and ast.unparse(p.stores[keys[0]]) == "X.shape[1]" and ast.unparse(p.stores[keys[1]]) == "len(self.get_feature_names_out())"
+        ck.verdict(ok, "C11.b", fit, f"fit stores {[(k, ast.unparse(v)) for k, v in p.stores.items()][:2]}", "n_input_features_ = X.shape[1] is recorded before n_output_features_ = number of names", "n_output_features_ is not the number of feature names computed after the input width was recorded")
+    # _transform_poly picks the recurrence matching the interaction flag and passes degree/bias in order
+    tp = ci.methods["_transform_poly"]
+    for io, fn in ((True, "_transform_ionly"), (False, "_transform_iall")):
+        ps = [p for p in paths(tp, {"self.poly_interaction_only": io}) if p.ret not in (RAISE, None)]
+        ok = False
+        got = None
+        for p in ps:
+            r = p.ret
+            if isinstance(r, ast.Call):
+                got = ast.unparse(r.func)
+                callee = repo.func(POLY, fn)
+                b = {k: ast.unparse(v) for k, v in bind(r, callee.named_params).items()}
+                ok = got == fn and b.get("degree") == "self.poly_degree" and b.get("bias") == "self.poly_include_bias" and b.get("X") == "X" and b.get("XP", "").replace(" ", "").startswith("numpy.empty((X.shape[0],self.n_output_features_)")
+        ck.verdict(ok and len(ps) == 1, "C11.b", tp, f"interaction_only={io} -> {got}", "the interaction flag selects its recurrence; degree, bias, output of n_output_features_ columns and input passed to their parameters", f"with interaction_only={io}, _transform_poly calls {got} with arguments that do not match (degree, bias, XP of n_output_features_ columns, X)")
+    mul = [f for f in repo.all_functions.values() if f.parent is tp]
+    cb = None
+    for p in paths(tp, {"self.poly_interaction_only": True}):
+        if isinstance(p.ret, ast.Call):
+            b = bind(p.ret, repo.func(POLY, "_transform_ionly").named_params)
+            cbn = src_of(b["multiply"]).split("%")[0] if "multiply" in b else None
+            cb = next((f for f in mul if f.name == cbn), None)
+    if cb is not None:
+        A, B, C = cb.named_params[:3]
+        r = [p.ret_text() for p in paths(cb)]
+        ck.verdict(r == [f"numpy.multiply({A}, {B}, out={C})"], "C11.b", cb, f"multiply callback returns {r}", "multiply writes A * B into C", "the multiply callback is not numpy.multiply(A, B, out=C)")
+    else:
+        ck.unknown("C11.b", tp, "multiply callback", "callback passed to the recurrence not found")
+    # slow path
     sl = ci.methods["_transform_poly_slow"]
-    cc = [c for c in own_nodes_incl_lambda(sl.node) if isinstance(c, ast.Call) and src_of(c.func) == "_combinations_poly"]
-    ok = len(cc) == 1 and [src_of(a) for a in cc[0].args] == ["X.shape[1]", "self.poly_degree", "self.poly_interaction_only"] and src_of(kwarg(cc[0], "include_bias")) == "self.poly_include_bias"
-    ck.verdict(ok, "C11.b", sl, cc[0] if cc else "_combinations_poly(...)", "slow path enumerates combinations with the same options", "slow path does not pass (n_features, degree, interaction_only, include_bias)")
-    cp = repo.func(POLY, "_combinations_poly")
-    t = {src_of(s.targets[0]): src_of(s.value) for s in own_nodes(cp.node) if isinstance(s, ast.Assign)}
-    ok = t.get("comb") == "combinations if interaction_only else combinations_w_r" and t.get("start") == "int(not include_bias)"
-    r = [src_of(x.value) for x in own_nodes(cp.node) if isinstance(x, ast.Return)]
-    ok = ok and r == ["chain.from_iterable((comb(range(n_features), i) for i in range(start, degree + 1)))"]
-    ck.verdict(ok, "C11.b", cp, "combinations of sizes start..degree", "scikit-learn's enumeration order (by degree, then lexicographic)", "the combination enumeration differs from PolynomialFeatures' (_combinations)")
+    cc = calls(sl, lambda c: src_of(c.func) == "_combinations_poly")
+    okc = False
+    if len(cc) == 1:
+        b = {k: ex.text(v, sl, cc[0]) for k, v in bind(cc[0], repo.func(POLY, "_combinations_poly").named_params).items()}
+        okc = b == {"n_features": "X.shape[1]", "degree": "self.poly_degree", "interaction_only": "self.poly_interaction_only", "include_bias": "self.poly_include_bias"}
+    ck.verdict(okc, "C11.b", sl, cc[0] if cc else "_combinations_poly(...)", "slow path enumerates combinations with the same options", "slow path does not pass (n_features, degree, interaction_only, include_bias)")
     loop = [l for l in own_nodes(sl.node) if isinstance(l, ast.For)]
-    ok = len(loop) == 1 and src_of(loop[0].body[0]) == "XP[:, i] = X[:, comb].prod(1)" and src_of(loop[0].iter) == "enumerate(comb)"
-    ck.verdict(ok, "C11.b", sl, loop[0].body[0] if loop else "XP[:, i] = X[:, comb].prod(1)", "column i is the product of the columns of combination i", "slow path column i is not the product over combination i")
+    okl = False
+    if len(loop) == 1 and isinstance(loop[0].iter, ast.Call) and src_of(loop[0].iter.func) == "enumerate" and isinstance(loop[0].target, ast.Tuple) and len(loop[0].target.elts) == 2 and len(loop[0].body) == 1 and cc:
+        iv, cv = [src_of(x) for x in loop[0].target.elts]
+        it0 = loop[0].iter.args[0]
+        tcc = ex.text(cc[0], sl, cc[0])
+        src_ok = ex.text(it0, sl, loop[0]) == tcc or (isinstance(it0, ast.Name) and any(tx == tcc for _, tx in defs_texts(repo, sl, it0.id)))
+        st = loop[0].body[0]
+        if isinstance(st, ast.Assign) and isinstance(st.targets[0], ast.Subscript):
+            t, v = st.targets[0], st.value
+            tgt_ok = isinstance(t.slice, ast.Tuple) and len(t.slice.elts) == 2 and src_of(t.slice.elts[1]) == iv and isinstance(t.slice.elts[0], ast.Slice)
+            arr = src_of(t.value)
+            val_ok = isinstance(v, ast.Call) and isinstance(v.func, ast.Attribute) and v.func.attr == "prod" and src_of(v.func.value).replace(" ", "") == f"X[:,{cv}]" and [src_of(a) for a in v.args] + [f"{k.arg}={src_of(k.value)}" for k in v.keywords] in (["1"], ["axis=1"])
+            allocs = [tx.replace(" ", "") for _, tx in defs_texts(repo, sl, arr)]
+            alloc = allocs[0] if len(allocs) == 1 else str(allocs)
+            okl = src_ok and tgt_ok and val_ok
+            ck.verdict(alloc.startswith("numpy.empty((X.shape[0],self.n_output_features_)"), "C11.b", sl, f"{arr} = {alloc[:60]}", "output has n_output_features_ columns", "allocated output width is not n_output_features_")
+            rets = [src_of(r.value) for r in own_nodes(sl.node) if isinstance(r, ast.Return)]
+            okl = okl and rets == [arr]
+    ck.verdict(okl, "C11.b", sl, loop[0].body[0] if loop else "XP[:, i] = X[:, comb].prod(1)", "column i is the product of the columns of combination i", "slow path column i is not the product over combination i")
+    cp = repo.func(POLY, "_combinations_poly")
+    r = [p.ret_text() for p in paths(cp)]
+    w = ctext("chain.from_iterable(((combinations if interaction_only else combinations_w_r)(range(n_features), i) for i in range(int(not include_bias), degree + 1)))")
+    ck.verdict(r == [w], "C11.b", cp, "combinations of sizes start..degree", "scikit-learn's enumeration order (by degree, then lexicographic)", f"the combination enumeration differs from PolynomialFeatures' (_combinations): {r}")
 
 
 def run(ck):
